@@ -312,6 +312,8 @@ def run_plan(w, cfg, faults, ref, tape, gens, then=None):
                     # 6. completed results stay loadable
                     if kind not in ("call", "run"):
                         _check_loadable(w, cfg, folder, ref, V)
+                    if kind.startswith("map-") and not viol:
+                        _check_completed_functions(p, w, cfg, sim, raised_calls, folder, ref, V)
                     # 7. fault sequence: the SAME pipeline object fails a second time, in another invocation
                     if then is not None and inproc and not viol:
                         second(then)
@@ -542,6 +544,49 @@ def _check_loadable(w, cfg, folder, ref, V):
                                                                        "expected": repr(exp)[:200]})
                         return
             del flat
+
+
+def _check_completed_functions(p, w, cfg, sim, raised_calls, folder, ref, V):
+    """'Results completed before the failure remain loadable', read for whole functions: a function that pipefunc lists before
+    the failing one in the same generation is resolved and stored before the failing one is looked at (sequentially and with
+    any executor alike); once all its calls have ended, its outputs are in the folder."""
+    from pipefunc.map import load_outputs
+
+    if not os.path.isfile(os.path.join(folder, "run_info.json")):
+        return
+    failing = {c.fn.split("'")[0] for c in raised_calls}
+    by_out = {tuple(fd["outputs"]): fd for fd in w["functions"]}
+    want = collections.Counter(c.fn.split("'")[0] for c in (ref.calls or []))
+    ended = collections.Counter(c.fn.split("'")[0] for c in sim.calls if c.end is not None and c not in raised_calls)
+    st = cfg["storage"]
+    for gen in p.topological_generations.function_lists:
+        fds = []
+        for f in gen:
+            outs = (f.output_name,) if isinstance(f.output_name, str) else tuple(f.output_name)
+            fds.append(by_out.get(outs))
+        if not any(fd is not None and fd["name"] in failing for fd in fds):
+            continue
+        for fd in fds:
+            if fd is None or fd["name"] in failing:
+                break
+            if not want[fd["name"]] or ended[fd["name"]] != want[fd["name"]]:
+                continue
+            # (what a memory backend holds - single outputs included - reaches the folder only when the map ends: judged are
+            # the outputs kept in files)
+            if not all(C.storage_of(st, w, o) == "file_array" for o in fd["outputs"]):
+                continue
+            for o in fd["outputs"]:
+                try:
+                    got = canon(load_outputs(o, run_folder=folder))
+                except Exception as e:  # noqa: BLE001
+                    V("loadable", f"load-raised:{type(e).__name__}", {"output": o, "exc": repr(e)[:300]})
+                    return
+                exp = getattr(ref, "L0", ref.R0).get(o)
+                if got != exp:
+                    V("loadable", "completed-function-not-loadable", {"output": o, "function": fd["name"], "got": repr(got)[:200],
+                                                                        "expected": repr(exp)[:200]})
+                    return
+        return
 
 
 # ------------------------------------------------------------------ entry points
